@@ -112,3 +112,8 @@ pub assume_specification<T>[ <[T]>::reverse ](s: &mut [T])
     ensures
         final(s)@ == old(s)@.reverse(),
 ;
+
+pub assume_specification<T>[ Option::<T>::or ](a: Option<T>, b: Option<T>) -> (r: Option<T>)
+    ensures
+        r == (if a.is_some() { a } else { b }),
+;
